@@ -318,6 +318,8 @@ Definition run (req : sexp) : sexp :=
         | L [A "Update"; i; j; L ms] =>
             match px_nat i, px_nat j, px_list px_on ms with Some i', Some j', Some m => Some (AUpdate i' j' m) | _, _, _ => None end
         | L [A "AddBundleDoc"; i; j] => match px_nat i, px_nat j with Some i', Some j' => Some (AAddBundleDoc i' j') | _, _ => None end
+        | L [A "CopyTouch"; i; s; r] =>
+            match px_nat i, px_on s, px_nat r with Some i', Some s', Some r' => Some (ACopyTouch i' s' r') | _, _, _ => None end
         | _ => None
         end in
       let n (k : nat) := A (str_of_nat k) in
